@@ -90,6 +90,8 @@ PLAN = {   # which properties' quick checks are run against which seeded change
     "C16-e": ["C16"], "C18-e": ["C18"], "C20-e": ["C20"],
     "C01-f": ["C01"], "C06-f": ["C06"], "C07-f": ["C07"], "C08-f": ["C08"], "C12-f": ["C12"], "C13-f": ["C13"], "C14-f": ["C14"],
     "C15-f": ["C15"], "C17-f": ["C17"], "C19-f": ["C19"],
+    "C02-g": ["C02"], "C03-g": ["C03"], "C04-g": ["C04"], "C05-g": ["C05"], "C09-g": ["C09"], "C10-g": ["C10"], "C11-g": ["C11"],
+    "C16-g": ["C16"], "C18-g": ["C18"], "C20-g": ["C20"],
 }
 
 
